@@ -444,6 +444,9 @@ func runC19(r *hk.Run) {
 	}
 	runPostExec(r, e, rng, r.Scale(150, 3000))
 	runH2C(r, e)
+	runOptionRefs(r, e)
+	runFingerprint(r, e)
+	runReExec(r, e, rng, r.Scale(100, 2000))
 	n := r.Scale(320, 8000)
 	for i := 0; i < n; i++ {
 		ln := 25
